@@ -98,64 +98,74 @@ Qed.
 (* ---------------------------------------------------------------------- *)
 (* token level: unique parsing of the chunk sequence                        *)
 (* ---------------------------------------------------------------------- *)
-Lemma toks_atom_inj a a' r r' :
-  wf_atom a = true -> wf_atom a' = true ->
-  toks_atom a ++ r = toks_atom a' ++ r' -> a = a' /\ r = r'.
+(* induction principle for the nested type *)
+Fixpoint arg_ind' (P : arg -> Prop)
+  (HA : forall dt sh d, P (Arr dt sh d)) (HO : forall ty r, P (Oth ty r))
+  (HL : forall l, Forall P l -> P (Lst l)) (x : arg) : P x :=
+  match x with
+  | Arr dt sh d => HA dt sh d
+  | Oth ty r => HO ty r
+  | Lst l =>
+      HL l ((fix go (l : list arg) : Forall P l :=
+               match l with
+               | [] => Forall_nil P
+               | y :: l' => Forall_cons y (arg_ind' P HA HO HL y) (go l')
+               end) l)
+  end.
+
+Definition ArgInj (x : arg) : Prop :=
+  wf_arg x = true -> forall x' r r',
+    wf_arg x' = true -> toks_arg x ++ r = toks_arg x' ++ r' -> x = x' /\ r = r'.
+
+Lemma toks_args_inj_F : forall l,
+  Forall ArgInj l -> forallb wf_arg l = true ->
+  forall l' r r', length l = length l' -> forallb wf_arg l' = true ->
+    flat_map toks_arg l ++ r = flat_map toks_arg l' ++ r' -> l = l' /\ r = r'.
 Proof.
-  intros Hw Hw' He.
-  destruct a as [dt sh d|ty rp]; destruct a' as [dt' sh' d'|ty' rp']; simpl in *.
-  - injection He as -> -> -> ->. now split.
-  - exfalso. injection He as Hty _. subst ty'. simpl in Hw'. discriminate Hw'.
-  - exfalso. injection He as Hty _. subst ty. simpl in Hw. discriminate Hw.
-  - injection He as -> -> ->. now split.
+  intros l HF. induction HF as [|a l Ha HF IH]; intros Hw [|a' l'] r r' Hl Hw' He;
+    simpl in Hl; try discriminate.
+  - simpl in He. now split.
+  - cbn [forallb] in Hw, Hw'.
+    apply andb_true_iff in Hw as [Hwa Hw]. apply andb_true_iff in Hw' as [Hwa' Hw'].
+    cbn [flat_map] in He. rewrite <- !app_assoc in He.
+    apply (Ha Hwa) in He as [-> He]; [|assumption].
+    destruct (IH Hw l' r r') as [-> ->]; [lia|assumption|exact He|now split].
 Qed.
 
-Lemma toks_atoms_inj : forall l l' r r',
-  length l = length l' ->
-  forallb wf_atom l = true -> forallb wf_atom l' = true ->
-  flat_map toks_atom l ++ r = flat_map toks_atom l' ++ r' -> l = l' /\ r = r'.
+Lemma toks_arg_inj_all : forall x, ArgInj x.
 Proof.
-  induction l as [|a l IH]; intros [|a' l'] r r' Hl Hw Hw' He; simpl in *;
-    try discriminate.
-  - now split.
-  - apply andb_true_iff in Hw as [Ha Hw]. apply andb_true_iff in Hw' as [Ha' Hw'].
-    rewrite <- !app_assoc in He.
-    apply toks_atom_inj in He as [-> He]; [|assumption|assumption].
-    destruct (IH l' r r') as [-> ->]; [lia|assumption|assumption|exact He|now split].
+  induction x as [dt sh d|ty rp|l IH] using arg_ind'; intros Hw x' r r' Hw' He.
+  - destruct x' as [dt' sh' d'|ty' rp'|l']; cbn [toks_arg app] in He.
+    + injection He as -> -> -> ->. now split.
+    + exfalso. apply cons_eq in He as [Hty _]. subst ty'. simpl in Hw'. discriminate Hw'.
+    + exfalso. apply cons_eq in He as [Hty _]. discriminate Hty.
+  - destruct x' as [dt' sh' d'|ty' rp'|l']; cbn [toks_arg app] in He.
+    + exfalso. apply cons_eq in He as [Hty _]. subst ty. simpl in Hw. discriminate Hw.
+    + injection He as -> -> ->. now split.
+    + exfalso. apply cons_eq in He as [Hty _]. subst ty. simpl in Hw. discriminate Hw.
+  - destruct x' as [dt' sh' d'|ty' rp'|l']; cbn [toks_arg app] in He.
+    + exfalso. apply cons_eq in He as [Hty _]. discriminate Hty.
+    + exfalso. apply cons_eq in He as [Hty _]. subst ty'. simpl in Hw'. discriminate Hw'.
+    + cbn [wf_arg] in Hw, Hw'.
+      apply andb_true_iff in Hw as [Hf Hn]. apply andb_true_iff in Hw' as [Hf' Hn'].
+      apply cons_eq in He as [_ He]. apply cons_eq in He as [Hlen He].
+      apply le8_inj in Hlen; [|lia|lia].
+      apply (toks_args_inj_F l IH Hf) in He as [-> ->]; [now split|lia|assumption].
 Qed.
 
 Lemma toks_arg_inj x x' r r' :
   wf_arg x = true -> wf_arg x' = true ->
   toks_arg x ++ r = toks_arg x' ++ r' -> x = x' /\ r = r'.
-Proof.
-  intros Hw Hw' He.
-  destruct x as [a|l]; destruct x' as [a'|l']; simpl in Hw, Hw'.
-  - simpl in He. apply toks_atom_inj in He as [-> ->]; [now split|assumption|assumption].
-  - exfalso. simpl in He. destruct a as [dt sh d|ty rp]; simpl in He.
-    + discriminate He.
-    + injection He as Hty _. subst ty. simpl in Hw. discriminate Hw.
-  - exfalso. simpl in He. destruct a' as [dt sh d|ty rp]; simpl in He.
-    + discriminate He.
-    + injection He as Hty _. subst ty. simpl in Hw'. discriminate Hw'.
-  - apply andb_true_iff in Hw as [Hf Hn]. apply andb_true_iff in Hw' as [Hf' Hn'].
-    cbn [toks_arg app] in He.
-    apply cons_eq in He as [_ He]. apply cons_eq in He as [Hlen He].
-    apply le8_inj in Hlen; [|lia|lia].
-    apply toks_atoms_inj in He as [-> ->]; [now split|lia|assumption|assumption].
-Qed.
+Proof. intros Hw Hw' He. now apply (toks_arg_inj_all x Hw x' r r'). Qed.
 
 Lemma toks_args_inj : forall l l' r r',
   length l = length l' ->
   forallb wf_arg l = true -> forallb wf_arg l' = true ->
   flat_map toks_arg l ++ r = flat_map toks_arg l' ++ r' -> l = l' /\ r = r'.
 Proof.
-  induction l as [|a l IH]; intros [|a' l'] r r' Hl Hw Hw' He; simpl in *;
-    try discriminate.
-  - now split.
-  - apply andb_true_iff in Hw as [Ha Hw]. apply andb_true_iff in Hw' as [Ha' Hw'].
-    rewrite <- !app_assoc in He.
-    apply toks_arg_inj in He as [-> He]; [|assumption|assumption].
-    destruct (IH l' r r') as [-> ->]; [lia|assumption|assumption|exact He|now split].
+  intros l l' r r' Hl Hw Hw' He.
+  apply (toks_args_inj_F l); auto.
+  apply Forall_forall. intros x _. apply toks_arg_inj_all.
 Qed.
 
 Definition wf_kw (kv : bytes * arg) : bool := small (fst kv) && wf_arg (snd kv).
@@ -171,8 +181,9 @@ Proof.
   - apply andb_true_iff in Hw as [Ha Hw]. apply andb_true_iff in Hw' as [Ha' Hw'].
     unfold wf_kw in Ha, Ha'. simpl in Ha, Ha'.
     apply andb_true_iff in Ha as [_ Hv]. apply andb_true_iff in Ha' as [_ Hv'].
-    unfold toks_kw in He. simpl in He. injection He as -> He.
-    rewrite <- !app_assoc in He.
+    unfold toks_kw in He. cbn [flat_map fst snd toks_arg app] in He.
+    rewrite <- !app_assoc in He. cbn [app] in He.
+    apply cons_eq in He as [_ He]. apply cons_eq in He as [-> He].
     apply toks_arg_inj in He as [-> He]; [|assumption|assumption].
     destruct (IH l' r r') as [-> ->]; [lia|assumption|assumption|exact He|now split].
 Qed.
@@ -191,10 +202,10 @@ Proof.
   cbn [app] in He. apply cons_eq in He as [_ He]. apply cons_eq in He as [Hm He].
   apply le8_inj in Hm; [|lia|lia].
   apply toks_kws_inj in He as [-> He]; [|lia|assumption|assumption].
-  apply toks_atom_inj in He as [-> He]; [|assumption|assumption].
-  apply toks_atom_inj in He as [-> He]; [|assumption|assumption].
-  rewrite <- (app_nil_r (toks_atom file)), <- (app_nil_r (toks_atom file')) in He.
-  apply toks_atom_inj in He as [-> _]; [reflexivity|assumption|assumption].
+  apply toks_arg_inj in He as [-> He]; [|assumption|assumption].
+  apply toks_arg_inj in He as [-> He]; [|assumption|assumption].
+  rewrite <- (app_nil_r (toks_arg file)), <- (app_nil_r (toks_arg file')) in He.
+  apply toks_arg_inj in He as [-> _]; [reflexivity|assumption|assumption].
 Qed.
 
 (* every token of a well-formed signature fits the length field *)
@@ -204,24 +215,16 @@ Proof. unfold small, blen. rewrite le8_length. reflexivity. Qed.
 Lemma smalls_app a b : smalls a -> smalls b -> smalls (a ++ b).
 Proof. unfold smalls. intros; apply Forall_app; now split. Qed.
 
-Lemma smalls_atom a : wf_atom a = true -> smalls (toks_atom a).
+Lemma smalls_arg : forall x, wf_arg x = true -> smalls (toks_arg x).
 Proof.
-  destruct a as [dt sh d|ty rp]; simpl; intros H;
-    repeat (apply andb_true_iff in H as [H ?]); repeat constructor; assumption.
-Qed.
-
-Lemma smalls_atoms l : forallb wf_atom l = true -> smalls (flat_map toks_atom l).
-Proof.
-  induction l as [|a l IH]; simpl; intros H; [constructor|].
-  apply andb_true_iff in H as [Ha H]. apply smalls_app; [now apply smalls_atom|now apply IH].
-Qed.
-
-Lemma smalls_arg x : wf_arg x = true -> smalls (toks_arg x).
-Proof.
-  destruct x as [a|l]; simpl; intros H.
-  - now apply smalls_atom.
+  induction x as [dt sh d|ty rp|l IH] using arg_ind'; cbn [wf_arg toks_arg]; intros H.
+  - repeat (apply andb_true_iff in H as [H ?]); repeat constructor; assumption.
+  - repeat (apply andb_true_iff in H as [H ?]); repeat constructor; assumption.
   - apply andb_true_iff in H as [H _]. constructor; [reflexivity|].
-    constructor; [apply small_le8|now apply smalls_atoms].
+    constructor; [apply small_le8|].
+    induction IH as [|a l Ha IH IH2]; cbn [flat_map]; [constructor|].
+    cbn [forallb] in H. apply andb_true_iff in H as [Hwa H].
+    apply smalls_app; [now apply Ha|now apply IH2].
 Qed.
 
 Lemma smalls_args l : forallb wf_arg l = true -> smalls (flat_map toks_arg l).
@@ -247,8 +250,8 @@ Proof.
   apply smalls_app; [now apply smalls_args|].
   constructor; [reflexivity|]. constructor; [apply small_le8|].
   apply smalls_app; [now apply smalls_kws|].
-  apply smalls_app; [now apply smalls_atom|].
-  apply smalls_app; now apply smalls_atom.
+  apply smalls_app; [now apply smalls_arg|].
+  apply smalls_app; now apply smalls_arg.
 Qed.
 
 (* the bytes fed to md5 by the repaired code determine the call *)
@@ -267,7 +270,7 @@ Transparent le8.
 Definition f8 : bytes := [60; 102; 56].      (* "<f8" *)
 Definition f4 : bytes := [60; 102; 52].      (* "<f4" *)
 Definition t_int : bytes := [105; 110; 116]. (* "int" *)
-Definition nm0 : atom := Oth t_str [107].    (* some function *)
+Definition nm0 : arg := Oth t_str [107].    (* some function *)
 
 Definition mk_sig (pos : list arg) : sig :=
   {| s_pos := pos; s_kw := []; s_name := nm0; s_doc := nm0; s_file := nm0 |}.
@@ -275,20 +278,20 @@ Definition mk_sig (pos : list arg) : sig :=
 (* (1) argument boundaries: f(A[0:2], A[2:4]) vs f(A[0:1], A[1:4]) for an
        array A of four one-byte items *)
 Definition w_boundary_1 : sig :=
-  mk_sig [One (Arr [124; 117; 49] [40; 50; 44; 41] [1; 2]);
-          One (Arr [124; 117; 49] [40; 50; 44; 41] [3; 4])].
+  mk_sig [Arr [124; 117; 49] [40; 50; 44; 41] [1; 2];
+          Arr [124; 117; 49] [40; 50; 44; 41] [3; 4]].
 Definition w_boundary_2 : sig :=
-  mk_sig [One (Arr [124; 117; 49] [40; 49; 44; 41] [1]);
-          One (Arr [124; 117; 49] [40; 51; 44; 41] [2; 3; 4])].
+  mk_sig [Arr [124; 117; 49] [40; 49; 44; 41] [1];
+          Arr [124; 117; 49] [40; 51; 44; 41] [2; 3; 4]].
 
 (* (2) same bytes, different dtype and shape: one float64 vs two float32 *)
 Definition w_dtype_1 : sig :=
-  mk_sig [One (Arr f8 [40; 49; 44; 41] [0; 0; 128; 63; 0; 0; 0; 64])].
+  mk_sig [Arr f8 [40; 49; 44; 41] [0; 0; 128; 63; 0; 0; 0; 64]].
 Definition w_dtype_2 : sig :=
-  mk_sig [One (Arr f4 [40; 50; 44; 41] [0; 0; 128; 63; 0; 0; 0; 64])].
+  mk_sig [Arr f4 [40; 50; 44; 41] [0; 0; 128; 63; 0; 0; 0; 64]].
 
 (* (3) bins=55 vs bins=[5, 5] *)
-Definition w_list_1 : sig := mk_sig [One (Oth t_int [53; 53])].
+Definition w_list_1 : sig := mk_sig [Oth t_int [53; 53]].
 Definition w_list_2 : sig := mk_sig [Lst [Oth t_int [53]; Oth t_int [53]]].
 
 Lemma key_old_not_injective :
@@ -318,9 +321,9 @@ Proof. vm_compute. repeat split. Qed.
 
 (* non-vacuity of key_new_inj: a signature with arrays, a list, kwargs *)
 Example wf_example :
-  wf_sig {| s_pos := [One (Arr f8 [40; 49; 44; 41] [0; 0; 128; 63; 0; 0; 0; 64]);
-                      Lst [Oth t_int [53]; Oth t_int [53]]];
-            s_kw := [([98; 105; 110; 115], One (Oth t_int [53; 53]))];
+  wf_sig {| s_pos := [Arr f8 [40; 49; 44; 41] [0; 0; 128; 63; 0; 0; 0; 64];
+                      Lst [Oth t_int [53]; Lst [Oth t_int [53]; Lst []]]];
+            s_kw := [([98; 105; 110; 115], Oth t_int [53; 53])];
             s_name := nm0; s_doc := Oth [78; 111; 110; 101; 84; 121; 112; 101] [78; 111; 110; 101];
             s_file := nm0 |} = true.
 Proof. reflexivity. Qed.
